@@ -22,6 +22,8 @@ LAST_MODEL = [None]
 
 
 def _risky(solver):
+    """queries on which z3 has been seen to ignore its timeout: to_int, big formulas, and nonlinear real arithmetic
+    (a product / quotient / power of two non-numeral terms: nlsat can spin for hours on one path literal)"""
     n = 0
     seen = set()
     stack = list(solver.assertions())
@@ -32,8 +34,14 @@ def _risky(solver):
             continue
         seen.add(k)
         n += 1
-        if z3.is_app(t) and t.decl().kind() == z3.Z3_OP_TO_INT:
-            return True
+        if z3.is_app(t):
+            kd = t.decl().kind()
+            if kd == z3.Z3_OP_TO_INT or kd == z3.Z3_OP_POWER:
+                return True
+            if kd == z3.Z3_OP_MUL and sum(1 for c in t.children() if not z3.is_rational_value(c)) >= 2:
+                return True
+            if kd == z3.Z3_OP_DIV and not z3.is_rational_value(t.arg(1)):
+                return True
         if n > 250:
             return True
         stack.extend(t.children())
